@@ -7,6 +7,7 @@ from pv import catalog, catgen, codec, gen
 from pv.core import Sub, Fail, exc_fail
 from pv.probes import Counting, Boom, BOOM_KINDS
 from pv.ref import base as R
+from pv import reuse
 
 ID = "C11"
 LEVEL = "exploration"
@@ -254,31 +255,9 @@ def check_history(case, ctx):
         if step[0] == "edit":
             _, si, how, pos, newrow = step
             data = rows[si]
-            if how == "append":
-                data.append(list(newrow))
-            elif how == "delete" and len(data) > 1:
-                del data[1 + pos % (len(data) - 1)]
-            elif how == "replace" and len(data) > 1:
-                data[1 + pos % (len(data) - 1)] = list(newrow)
-            elif how in ("swapcols", "insertcol") and e.name in HEADER_AT_CONSTRUCTION:
-                pass   # these consult the headers when the view is built (documented); a later layout change is not theirs to see
-            elif how == "swapcols":
-                a, b = pos % 4, (pos // 2 + 1) % 4
-                # (every row is REPLACED by a new list, like the row edits above: a memory cache legitimately holds on to the
-                #  row objects it was given, and the statement speaks of editing the source list, not of mutating rows)
-                if a != b and all(len(r) > max(a, b) for r in data):
-                    for i, r in enumerate(data):
-                        r2 = list(r)
-                        r2[a], r2[b] = r2[b], r2[a]
-                        data[i] = r2
-                    ctx.label("layout-edit")
-            elif how == "insertcol":
-                at = pos % 3
-                if all(len(r) >= at for r in data):
-                    name = "zz%d" % sum(1 for f in data[0] if str(f).startswith("zz"))
-                    for i, r in enumerate(data):
-                        data[i] = list(r[:at]) + [name if i == 0 else newrow[i % len(newrow)]] + list(r[at:])
-                    ctx.label("layout-edit")
+            lab = reuse.apply_edit(data, how, pos, newrow, layout_ok=e.name not in HEADER_AT_CONSTRUCTION)
+            if lab == "layout-edit":
+                ctx.label("layout-edit")
             if presorted:
                 resort(si)
             edited = True
